@@ -12,7 +12,8 @@ HARNESS = ["network/transport/v2/zz_verif_c07_test.go", "network/transport/v2/zz
 PKG2 = "network"
 HARNESS2 = ["network/zz_verif_c15_test.go", "network/transport/grpc/zz_verif_export_c15.go"]
 PKG3 = "network/transport/grpc"
-HARNESS3 = ["network/transport/grpc/zz_verif_c15_test.go", "network/transport/grpc/zz_verif_c15_inbound_test.go"]
+HARNESS3 = ["network/transport/grpc/zz_verif_c15_test.go", "network/transport/grpc/zz_verif_c15_inbound_test.go",
+            "network/transport/grpc/zz_verif_c15_outbound_test.go"]
 HARNESSES = [(PKG, HARNESS, "c15"), (PKG2, HARNESS2, "c15cfg"), (PKG3, HARNESS3, "c15tls")]
 
 REQUIRED = ["payload_only_in_payload_msg", "private_payload_release_sound", "decrypt_iff_member", "payload_stored_only_if_hash_matches", "payload_with_transaction_only_if_hash_matches",
@@ -26,7 +27,10 @@ REQUIRED = ["payload_only_in_payload_msg", "private_payload_release_sound", "dec
             "offloaded_certificate_needs_exactly_one_value", "fact_offloading_header_checks", "known_transaction_writes_no_payload", "known_transaction_keeps_payload_store", "fact_state_add_present_branch_writes_nothing", "offloaded_identity_is_this_streams_header", "offloaded_streams_independent", "fact_offloading_authinfo_overwritten", "authenticated_with_proven_certificate", "decryptPAL_depends_only_on_keys_and_header", "header_prefix_does_not_determine_list", "fact_sent_envelopes_fresh", "fact_decryptPAL_stateless",
             "inbound_streams_share_connection_identity", "stream_on_authenticated_connection_proved_it", "inbound_stream_to_release_sound",
             "refused_inbound_stream_changes_nothing", "readMetadata_ok_needs_single_values", "fact_inbound_lookup_is_model",
-            "fact_connection_get_and_predicates", "fact_inbound_stream_order", "fact_read_metadata_shape"]
+            "fact_connection_get_and_predicates", "fact_inbound_stream_order", "fact_read_metadata_shape",
+            "outbound_connection_identity_is_dialled_and_proved", "bootstrap_connection_never_authenticated", "outbound_stream_to_release_sound",
+            "unopened_outbound_stream_registers_nothing", "failed_outbound_connection_is_reset", "cmAuthenticate_tls_ok",
+            "fact_open_outbound_stream_flow", "fact_open_outbound_streams_loop_and_connect", "fact_connection_peer_updates"]
 
 
 def run(ctx):
@@ -233,7 +237,8 @@ def run(ctx):
     # ---- oracle 5: the real server TLS configuration (newServerTLSConfig) over a real crypto/tls handshake: a client certificate that does
     # not chain to the trust store (self-signed, other CA, none) is never accepted, in TLS 1.2 and 1.3
     t_bad, tls_lines, n_inbound, inbound_streams, inbound_res = 0, 0, 0, 0, Counter()
-    if not ctx.replay or '"op":"tlsclient"' in open(ctx.replay).read(4096) or '"op":"cmauth"' in open(ctx.replay).read(4096) or '"op":"offload' in open(ctx.replay).read(4096) or '"op":"inbound"' in open(ctx.replay).read(4096):
+    n_outbound, outbound_snaps, outbound_res = 0, 0, Counter()
+    if not ctx.replay or '"op":"tlsclient"' in open(ctx.replay).read(4096) or '"op":"cmauth"' in open(ctx.replay).read(4096) or '"op":"offload' in open(ctx.replay).read(4096) or '"op":"inbound"' in open(ctx.replay).read(4096) or '"op":"outbound"' in open(ctx.replay).read(4096):
         b3 = ctx.go_test_binary(PKG3, HARNESS3, "c15tls")
         if b3 is None:
             ctx.oblige("harness-builds:grpc.newServerTLSConfig", False, ctx.harness_error[-1200:])
@@ -291,6 +296,49 @@ def run(ctx):
                                                   f"handleInboundStream ({j['kind']} authenticator): after event {en} stream {sid} (peerID header {pids}, nodeDID header {dids}, certificate "
                                                   f"{e.get('cert') if e.get('hascert') else None}) sits on connection id={cid} did={cdid} authenticated={cauth}: the v2 handlers serve it with that "
                                                   f"identity (private payloads of {cdid or 'nobody'}) although its own set-up did not establish it", "inbound.jsonl", ops3[k])
+                        continue
+                    if j["op"] == "outbound":
+                        # an outbound connection on the REAL openOutboundStreams: connection.Peer() (what the v2 handlers decide on) keeps the DID this
+                        # node DIALLED and is authenticated only when the certificate on it covers the NutsComm host of that DID; every registered
+                        # stream's own header named that DID and its own certificate covers it; a bootstrap connection is never authenticated;
+                        # after disconnect nothing of the identity is left
+                        n_outbound += 1
+                        didtab, eps = dict(map(tuple, j["didtab"])), dict(map(tuple, j["endpoints"]))
+                        exp = j["expected"]
+                        mo = re.match(r"outbound (\S+) \[(.*)\] end=(\S*) after=(\S*) listed=(\d+)$", l)
+                        why = None
+                        if not mo:
+                            why = f"unreadable outcome {l[:200]}"
+                        else:
+                            outbound_res[mo.group(1)] += 1
+                            snaps = [x for x in mo.group(2).split(" ") if x] + [mo.group(3)]
+                            for sn, c in enumerate(snaps):
+                                cid, cdid, cauth, dns, sids = c.split("~")
+                                outbound_snaps += 1
+                                covers = j["kind"] == "dummy" or (exp in eps and eps[exp] in dns.split("+"))
+                                if cdid != exp:
+                                    why = f"snapshot {sn}: the connection's DID is {cdid!r}, the node dialled {exp!r}"
+                                elif cauth == "true" and not (exp and covers):
+                                    why = f"snapshot {sn}: connection authenticated as {cdid!r} with certificate {dns!r} (NutsComm host of it: {eps.get(exp)})"
+                                for sid in filter(None, sids.split("+")):
+                                    e = j["streams"][int(sid)]
+                                    dids = e.get("dids", [])
+                                    named = didtab.get(dids[0].strip()) if len(dids) == 1 and dids[0].strip() else ""
+                                    own = j["kind"] == "dummy" or (e.get("hascert", False) and exp in eps and eps[exp] in e.get("cert", []))
+                                    if exp and not (cauth == "true" and named == exp and own):
+                                        why = (f"snapshot {sn}: stream {sid} (nodeDID header {dids}, certificate {e.get('cert') if e.get('hascert') else None}) is registered on the "
+                                               f"connection dialled for {exp} (authenticated={cauth}) without having proved that DID itself")
+                                    if not exp and cauth == "true":
+                                        why = f"snapshot {sn}: bootstrap connection (no expected DID) is authenticated"
+                            aid, adid, aauth, _dns, asids = mo.group(4).split("~")
+                            if (aid, adid, aauth, asids) != ("", "", "false", "") or mo.group(5) != "0":
+                                why = f"after disconnect the connection still carries id={aid!r} did={adid!r} authenticated={aauth} streams={asids!r} listed={mo.group(5)}"
+                        if why:
+                            t_bad += 1
+                            if any("outbound-connection" in v[1] for v in ctx.violations):
+                                continue
+                            ctx.violation("C15:outbound-connection-identity-not-the-dialled-and-proved-one",
+                                          f"openOutboundStreams ({j['kind']} authenticator, dialled {exp or 'a bootstrap contact'}): {why}; outcome: {l[:400]}", "outbound.jsonl", ops3[k])
                         continue
                     if j["op"] == "offload":
                         # TLS offloading interceptor: a certificate is taken over only from EXACTLY ONE header value that holds one certificate
@@ -354,7 +402,8 @@ def run(ctx):
                                      "authn_outcomes": dict(Counter(l.split()[1] for l in impl if l.startswith("authn "))),
                                      "network_configure_cases(tls x strict x nodeDID)": cfg_lines,
                                      "inbound_stream_histories": n_inbound, "inbound_event_outcomes": dict(inbound_res),
-                                     "inbound_stream_on_connection_checks": inbound_streams}
+                                     "inbound_stream_on_connection_checks": inbound_streams,
+                                     "outbound_connections": n_outbound, "outbound_outcomes": dict(outbound_res), "outbound_snapshots_checked": outbound_snaps}
     ctx.cov["samples"] = [steps[60][:300] if len(steps) > 60 else "", next((l for l in impl if "pl(" in l), "")[:300]]
     if gaps:
         ctx.notes.append(f"gap exercised (not a violation): holder able to decrypt without being listed released the payload to listed peers: {dict(gaps)}")
